@@ -53,4 +53,5 @@ let () =
     Printf.sprintf "\"%s\":{\"n\":%d,\"nontrivial\":%d,\"viol\":%d,\"diff\":%d,\"samples\":[%s]}"
       k s.n (Hashtbl.length s.nontriv) s.viol s.diff
       (String.concat "," (List.map (fun x -> "\"" ^ esc x ^ "\"") (List.rev s.samples))) :: acc) stats [] in
-  Printf.printf "STATS {%s}\n" (String.concat "," (List.sort compare items))
+  Printf.printf "STATS {%s}\n" (String.concat "," (List.sort compare items));
+  write_coq_cases ()
